@@ -451,7 +451,31 @@ def _unpack_sources(name, fr, F, seen, depth, calls_seen=None):
             tgt, val = n.target, n.value
         if tgt is not None and any(isinstance(e, ast.Name) and e.id == name
                                    for e in ast.walk(tgt)):
-            out |= provenance(val, fr, F, seen, depth, calls_seen)
+            done = False
+            if isinstance(n, ast.Assign) and isinstance(val, ast.Call) and \
+                    isinstance(tgt, (ast.Tuple, ast.List)) and depth < 3:
+                # a, b, c = f(...): element-wise through tuple returns
+                idx = [i for i, e in enumerate(tgt.elts)
+                       if isinstance(e, ast.Name) and e.id == name]
+                t2 = F.b.resolve_call(val, fr)
+                if idx and t2 is not None and not t2.func.is_generator and \
+                        not any(a.func is t2.func for a in fr.chain()):
+                    rets = [r for r in walk_local(t2.func.node)
+                            if isinstance(r, ast.Return)]
+                    if rets and all(isinstance(r.value, ast.Tuple) and
+                                    len(r.value.elts) == len(tgt.elts)
+                                    for r in rets):
+                        nf = F.b.make_frame(val, t2, fr)
+                        cp = F.b.canon(val.func, fr) if dotted(val.func) \
+                            else None
+                        if cp is not None:
+                            out.add(('call', cp))
+                        for r in rets:
+                            out |= provenance(r.value.elts[idx[0]], nf, F,
+                                              None, depth + 1, calls_seen)
+                        done = True
+            if not done:
+                out |= provenance(val, fr, F, seen, depth, calls_seen)
     return out
 
 
